@@ -1,7 +1,7 @@
 #!/usr/bin/env python3
 """Scripted helper (url_rewrite or external_acl). argv[1] = control directory.
 Reads <dir>/plan.json: {"mode": "rewrite"|"extacl"|"serial", "batch": N, "order": [k...], "cuts": [[k, j]...], "pause": s,
-"noreply": [k...], "strays": [[k, what]...]}
+"noreply": [k...], "strays": [[k, what]...], "verdicts": {"<k> <acl argument>": "OK"|"ERR"}}
   rewrite / extacl (concurrent channels): collects N request lines "<chan> <url> ...", then writes the reply lines in the
      given order (k = token at the end of the URL path), cutting the byte stream at the given offsets inside the reply of k,
      each fragment in its own write() with a pause.  A stray reply line is written in front of the reply of k: what =
@@ -53,6 +53,35 @@ def write_cut(data, cuts):
         prev = c
         time.sleep(plan.get('pause', 0.01))
 
+
+if mode == 'extacl2':
+    # external ACL lookups "<chan> <url> <acl argument>": the verdict for (k, argument) comes from the plan; every batch of
+    # lines that arrived together is answered in reverse order after a pause
+    import select
+    while True:
+        data = os.read(fd, 65536)
+        if not data:
+            break
+        buf += data
+        time.sleep(plan.get('pause', 0.01))
+        while select.select([fd], [], [], 0)[0]:
+            more = os.read(fd, 65536)
+            if not more:
+                break
+            buf += more
+        lines = []
+        while b'\n' in buf:
+            line, buf = buf.split(b'\n', 1)
+            lines.append(line.decode('latin-1'))
+        for line in reversed(lines):
+            parts = line.split(' ')
+            chan, url, arg = parts[0], parts[1] if len(parts) > 1 else '', ' '.join(parts[2:])
+            k = url.rstrip('/').split('/')[-1]
+            q = '%s %s' % (k, arg)
+            v = plan.get('verdicts', {}).get(q, 'ERR')
+            os.write(out.fileno(), ('%s %s\n' % (chan, ('OK user=%s' % k) if v == 'OK' else 'ERR')).encode())
+            L(e='HVerdict', q=q, v=v, chan=int(chan))
+    sys.exit(0)
 
 if mode == 'serial':
     while True:
